@@ -1969,8 +1969,11 @@ class CheckImplied(todict.PrintNode):
                     "{}:Too many arguments to 'size': ".format(
                         self.context.linenumber, self.expr)
                 )
-            argname = node.args[0].name
-            arg = declast.find_arg_by_name(self.decls, argname)
+            # The argument must be a name, not an expression.
+            argname = getattr(node.args[0], "name", None)
+            arg = None
+            if argname is not None:
+                arg = declast.find_arg_by_name(self.decls, argname)
             if arg is None:
                 raise RuntimeError(
                     "{}:Unknown argument '{}': {}".format(
@@ -1984,8 +1987,11 @@ class CheckImplied(todict.PrintNode):
                     "{}:Too many arguments to '{}': {}".format(
                         self.context.linenumber, node.name, self.expr)
                 )
-            argname = node.args[0].name
-            arg = declast.find_arg_by_name(self.decls, argname)
+            # The argument must be a name, not an expression.
+            argname = getattr(node.args[0], "name", None)
+            arg = None
+            if argname is not None:
+                arg = declast.find_arg_by_name(self.decls, argname)
             if arg is None:
                 raise RuntimeError(
                     "{}:Unknown argument '{}': {}".format(
